@@ -51,16 +51,16 @@ Fixpoint io_read_loop (fuel : nat) (s : St) (h : nat) (acc : bytes) (cap : Z) : 
     end
   end.
 
-(* ioutil.go ReadFile: Open; defer Close; Stat for the size hint; readAll(f, n + bytes.MinRead) *)
+(* ioutil.go ReadFile: Open; defer Close; Stat for the size hint; readAll(f, n + bytes.MinRead).
+   Fuel of the loop: the size Stat reported + 2 (every Read before EOF delivers at least one byte
+   of a file of that size; one more Read sees io.EOF). *)
 Definition read_file (s : St) (p : str) : St * res :=
   match step s (Open p) with
   | (s1, RHandle h) =>
     let '(s2, rst) := step s1 (HStat h) in
-    let n := match rst with
-             | RInfo fi => if fi_size fi <? io_size_cap then fi_size fi else 0
-             | _ => 0
-             end in
-    let '(s3, r) := io_read_loop (Z.to_nat n + 2) s2 h [] (n + io_min_read) in
+    let size := match rst with RInfo fi => fi_size fi | _ => 0 end in
+    let n := if size <? io_size_cap then size else 0 in
+    let '(s3, r) := io_read_loop (Z.to_nat size + 2) s2 h [] (n + io_min_read) in
     let '(s4, _) := step s3 (HClose h) in
     (s4, r)
   | (s1, RErr e) => (s1, RErr e)
